@@ -1659,6 +1659,15 @@ def ext_call(it, dotted, args, kw):
         r = Vec(out)
         r.exact = bool(parts_exact(it, args[0]))
         return r
+    if name == "np.allclose" and len(args) >= 2 and isinstance(args[0], Vec) and isinstance(args[1], Vec):
+        a, b = _lits(args[0].v), _lits(args[1].v)
+        if a is None or b is None:
+            raise Undecided("np.allclose on abstract values")
+        if len(a) != len(b):
+            raise Raised("ValueError", "operands could not be broadcast together")
+        rtol = kw.get("rtol", args[2] if len(args) > 2 else 1e-5)
+        atol = kw.get("atol", args[3] if len(args) > 3 else 1e-8)
+        return all(abs(x - y) <= atol + rtol * abs(y) for x, y in zip(a, b))
     if name in ("np.array_equal",):
         a, b = args
         if isinstance(a, Matrix) or isinstance(b, Matrix):
